@@ -47,7 +47,8 @@ CFG = dict(
          "PARKED IN SendMsg behind the connection's stalled writer (server-side back-pressure) x cancel / deadline x 0..2 exchanges x pending client "
          "RecvMsg x other calls; SCALE: 9, 17, 33, 101 (thorough also 2, 65, 129, 257) concurrent streams whose handlers wait for their contexts, cancel "
          "all / the oldest (predicates only); 17, 18, 24, 33 streams cancelled AT ONCE while the client's transport takes no Write, then released: every "
-         "reset reaches the wire; the caller's SendMsg PARKED in the transport when the cancel / deadline lands (returns the context's error, never EOF); plus 40 repetitions of the FORCED cancel-then-send schedule "
+         "reset reaches the wire; the caller's SendMsg PARKED in the transport when the cancel / deadline lands (returns the context's error, never EOF); the reset Write held up "
+         "for 300 ms / 1 s / 5 s / 29.9 s (below its 30 s bound) and then released: the reset still reaches the wire; plus 40 repetitions of the FORCED cancel-then-send schedule "
          "(stream loop held at the yield point cs.loop.read while a SendMsg tears the registration down: regression of D-07s)",
     assumptions=["payloads, metadata, methods and names are opaque tokens for client and server",
                  "the transport checks the context of a Write (Endpoint.CheckCtx); wires are FIFO and lossless (C19 for the shipped transports)",
